@@ -423,3 +423,62 @@ Print Assumptions C08_selfcheck_only_without_anchors.
 Print Assumptions C08_selfcheck_single.
 Print Assumptions C08_find_first_not_whole_is_K2.
 Print Assumptions C08_find_first_whole_or_K2.
+
+(* PARTIAL (Proofs/SelfCheckTotal.v).  Full statement wanted: for every configuration without surrogate
+   escapes the computed self-check returns an outcome and never "skipped" -- i.e. Pipeline.sc_admissible,
+   which the correspondence run enforces on the implementation's recorded outcome, holds of the model.
+   Proved: in NON-VERBOSE mode, for candidates without a raw VT/FF character ([no_vf]).  Missing: verbose
+   mode (the candidate is compiled without the x flag, the first one with its line breaks removed) and raw
+   VT/FF (ordinary literals for the parser; the printing lemmas are stated after RegExp::fmt's replacement).
+   The candidate is the Expression's string: no flags, no anchors, a top-level alternation NOT grouped. *)
+From Grex Require Proofs.SelfCheckTotal.
+Theorem C08_selfcheck_admissible_partial : forall isd is_ws, ColourStripBase.digit_ok isd -> ws_ok is_ws ->
+  forall c db ws,
+    let tcs := normalise c db ws in
+    let cls := grapheme_clusters c db tcs in
+    ws <> [] -> Forall (Forall scalar) tcs -> oracle_ok db tcs ->
+    f_sur c = false -> f_verbose c = false ->
+    (forall e1, SelfCheckTotal.cand1 c cls = Some e1 -> SelfCheckTotal.no_vf (cand_str isd c e1)) ->
+    (exists sc, sc_ref isd is_ws c cls tcs = Some sc /\ sc <> SCSkipped /\ sc_admissible c sc = true)
+    /\ (exists s, build_closed isd is_ws c db ws = Some s).
+Proof. exact SelfCheckTotal.sc_ref_admissible_inputs. Qed.
+
+(* the candidate handed to Regex::new parses, colour or not, to the alternatives of the expression *)
+Theorem C08_candidate_parses_partial : forall isd is_ws, ColourStripBase.digit_ok isd -> ws_ok is_ws ->
+  forall c gap e,
+    f_sur c = false -> f_verbose c = false -> wf_print_gen gap e -> SelfCheckTotal.no_vf (cand_str isd c e) ->
+    parse is_ws (cand_str isd c e)
+    = Some (mkF false false, ralt (e_alts (ColourStripBase.with_colour c false) e)).
+Proof. exact SelfCheckTotal.cand_str_parses. Qed.
+
+Theorem C08_selfcheck_nonvacuous :
+  sc_ref NonVacuity.isd NonVacuity.is_ws_std SelfCheckTotal.c_SC
+         (grapheme_clusters SelfCheckTotal.c_SC SelfCheckTotal.db_SC (normalise SelfCheckTotal.c_SC SelfCheckTotal.db_SC SelfCheckTotal.ws_SC))
+         (normalise SelfCheckTotal.c_SC SelfCheckTotal.db_SC SelfCheckTotal.ws_SC) = Some SCPass1
+  /\ build_closed NonVacuity.isd NonVacuity.is_ws_std SelfCheckTotal.c_SC SelfCheckTotal.db_SC SelfCheckTotal.ws_SC = Some [97; 98; 63]%N.
+Proof. exact SelfCheckTotal.sc_ref_world. Qed.
+Print Assumptions C08_selfcheck_admissible_partial.
+Print Assumptions C08_candidate_parses_partial.
+Print Assumptions C08_selfcheck_nonvacuous.
+
+(* VERBOSE MODE (Proofs/SelfCheckVerbose.v).  The string the test cases are searched with is, in either
+   mode, the NON-verbose candidate: `regex.to_string().replace('\n', "")` undoes exactly the layout. *)
+From Grex Require Proofs.SelfCheckVerbose.
+Theorem C08_selfcheck_recompile_is_nonverbose : forall isd, ColourStripBase.digit_ok isd ->
+  forall c gap e,
+    f_sur c = false -> f_verbose c = true -> wf_print_gen gap e ->
+    cand1_str isd c e = SelfCheckVerbose.cand_nv c e.
+Proof. exact SelfCheckVerbose.cand1_str_verbose. Qed.
+
+(* the computed self-check returns an outcome in every mode (the verbose re-compile cannot fail);
+   PARTIAL: [no_vf]; and in verbose mode "not skipped" is not proved (first trial compile = verbose string
+   without the x flag) *)
+Theorem C08_selfcheck_total_partial : forall isd is_ws, ColourStripBase.digit_ok isd -> ws_ok is_ws ->
+  forall c cls tcs,
+    Forall wf_cluster cls -> Forall (Forall (wf_pg false)) cls -> cls <> [] ->
+    f_sur c = false ->
+    (forall e1, SelfCheckTotal.cand1 c cls = Some e1 -> SelfCheckTotal.no_vf (SelfCheckVerbose.cand_nv c e1)) ->
+    exists sc, sc_ref isd is_ws c cls tcs = Some sc.
+Proof. exact SelfCheckVerbose.sc_ref_total. Qed.
+Print Assumptions C08_selfcheck_recompile_is_nonverbose.
+Print Assumptions C08_selfcheck_total_partial.
